@@ -73,7 +73,7 @@ func (g *gateSvc) Create(name, taskID, nodeID string, d udf.Diagnostic, abort fu
 	if f {
 		return nil, errors.New("gate: start refused by the oracle")
 	}
-	return &gateUDF{in: make(chan edge.Message), out: make(chan edge.Message), done: make(chan struct{}), abrt: make(chan struct{})}, nil
+	return &gateUDF{task: taskID, abortCB: abort, in: make(chan edge.Message), out: make(chan edge.Message), done: make(chan struct{}), abrt: make(chan struct{})}, nil
 }
 func (g *gateSvc) setFail(ids []string) {
 	g.mu.Lock()
@@ -86,13 +86,24 @@ func (g *gateSvc) setFail(ids []string) {
 
 // gateUDF passes every message through (kit's sinkUDF allocates its abort channel in Open, which races with a
 // stop that follows the start immediately; this one allocates everything at creation).
+//
+// A POISON point — a point carrying the tag victim=<task id> — kills the gate of that task the way a UDF process
+// dies: it stops reading and writing, tells the node through the abort callback, closes Out, and Close returns
+// an error. The node fails, the task ends with an error: this is the run-time death the goroutine of
+// task_store.startTask waits for.
 type gateUDF struct {
+	task    string
+	abortCB func()
 	in, out chan edge.Message
 	done    chan struct{}
 	abrt    chan struct{}
 	once    sync.Once
 	opened  sync.Once
+	mu      sync.Mutex
+	crashed bool
 }
+
+const victimTag = "victim"
 
 func (u *gateUDF) Open() error {
 	u.opened.Do(func() {
@@ -100,6 +111,16 @@ func (u *gateUDF) Open() error {
 			defer close(u.done)
 			defer close(u.out)
 			for m := range u.in {
+				if pm, ok := m.(edge.PointMessage); ok && pm.Tags()[victimTag] == u.task {
+					u.mu.Lock()
+					u.crashed = true
+					u.mu.Unlock()
+					u.once.Do(func() { close(u.abrt) })
+					if u.abortCB != nil {
+						u.abortCB()
+					}
+					return
+				}
 				select {
 				case u.out <- m:
 				case <-u.abrt:
@@ -117,6 +138,11 @@ func (u *gateUDF) Close() error {
 	u.Open() // a node stopped before it ran never opened the UDF: make sure the pump exists and ends
 	close(u.in)
 	<-u.done
+	u.mu.Lock()
+	defer u.mu.Unlock()
+	if u.crashed {
+		return errors.New("gate: udf process died")
+	}
 	return nil
 }
 func (u *gateUDF) Snapshot() ([]byte, error)     { return nil, nil }
@@ -137,6 +163,13 @@ type txStorage struct {
 	snap int    // copy the file after this many commits (<0: never)
 	to   string // snapshot target
 	done bool
+	mu   sync.Mutex // the goroutine startTask leaves behind (run-time death) also runs a transaction
+}
+
+func (s *txStorage) count() int {
+	s.mu.Lock()
+	defer s.mu.Unlock()
+	return s.ntx
 }
 
 func (s *txStorage) Store(namespace string) storage.Interface {
@@ -145,6 +178,8 @@ func (s *txStorage) Store(namespace string) storage.Interface {
 func (s *txStorage) Register(name string, store storage.StoreActioner) { s.reg.Register(name, store) }
 
 func (s *txStorage) reset(snapAfter int, to string) {
+	s.mu.Lock()
+	defer s.mu.Unlock()
 	s.ntx, s.snap, s.to, s.done, s.flt = 0, snapAfter, to, false, 0
 	s.maybeSnap()
 }
@@ -165,6 +200,8 @@ type txStore struct {
 }
 
 func (t *txStore) Update(f func(storage.Tx) error) error {
+	t.s.mu.Lock()
+	defer t.s.mu.Unlock()
 	if t.s.flt > 0 && t.s.ntx+1 == t.s.flt {
 		t.s.ntx++
 		t.s.maybeSnap()
